@@ -224,12 +224,11 @@ func TestVerifC19QuotaReplay(t *testing.T) {
 				leaves = append(leaves, q.Name)
 			}
 		}
-		finishCase := rapid.IntRange(0, 3).Draw(t, "podsMayFinishWithoutBeingDeleted") == 0
 		persisted := map[types.UID]*corev1.Pod{} // every pod object the API server holds: pending, bound, finished
 		next := 0
 		var hist []string
 		dead := false
-		sawDup, sawTerminated, sawPending, sawTwoInQuota, sawChild := false, false, false, false, false
+		sawDup, sawPodFinished, sawPending, sawTwoInQuota, sawChild := false, false, false, false, false
 		maxBound := 0
 
 		sorted := func(pred func(*corev1.Pod) bool) []types.UID {
@@ -358,11 +357,6 @@ func TestVerifC19QuotaReplay(t *testing.T) {
 				}
 				if freshOK {
 					full += ":live-differs-from-model"
-					if len(sorted(func(p *corev1.Pod) bool {
-						return p.Spec.NodeName != "" && (p.Status.Phase == corev1.PodSucceeded || p.Status.Phase == corev1.PodFailed)
-					})) > 0 {
-						full = "quota-replay:used-differs:finished-pod-still-charged-by-live"
-					}
 				}
 			}
 			var objs []string
@@ -429,26 +423,23 @@ func TestVerifC19QuotaReplay(t *testing.T) {
 				hist = append(hist, "delete "+persisted[u].Name)
 				delete(persisted, u)
 			},
+			// A pod that finishes (phase Succeeded/Failed) leaves the scheduler's pod informer, which carries the field
+			// selector status.phase!=Succeeded,status.phase!=Failed (scheduler.NewInformerFactory): the plugin gets a
+			// DELETE and a restarted scheduler never sees the object.
 			"finish": func(t *rapid.T) {
 				if dead {
 					return
 				}
-				if !finishCase {
-					t.Skip("no finished pods in this case")
-				}
-				uids := sorted(func(p *corev1.Pod) bool { return p.Spec.NodeName != "" && p.Status.Phase == "" })
+				uids := sorted(func(p *corev1.Pod) bool { return p.Spec.NodeName != "" })
 				if len(uids) == 0 {
 					t.Skip("nothing running")
 				}
 				u := rapid.SampledFrom(uids).Draw(t, "uid")
-				old := persisted[u]
-				n := old.DeepCopy()
-				n.Status.Phase = rapid.SampledFrom([]corev1.PodPhase{corev1.PodSucceeded, corev1.PodFailed}).Draw(t, "phase")
-				bump(n)
-				live.OnPodUpdate(c19Q(n), c19Q(old), n.DeepCopy(), old.DeepCopy())
-				persisted[u] = n
-				sawTerminated = true
-				hist = append(hist, fmt.Sprintf("finish %s (%s)", n.Name, n.Status.Phase))
+				phase := rapid.SampledFrom([]corev1.PodPhase{corev1.PodSucceeded, corev1.PodFailed}).Draw(t, "phase")
+				live.OnPodDelete(c19Q(persisted[u]), persisted[u].DeepCopy())
+				hist = append(hist, fmt.Sprintf("finish %s (%s): delivered as delete, object leaves the informer", persisted[u].Name, phase))
+				delete(persisted, u)
+				sawPodFinished = true
 			},
 			"touch": func(t *rapid.T) {
 				if dead {
@@ -475,7 +466,7 @@ func TestVerifC19QuotaReplay(t *testing.T) {
 			},
 		})
 		c.ClassIf(sawDup, "duplicate-or-noop-event")
-		c.ClassIf(sawTerminated, "finished-pod-persisted")
+		c.ClassIf(sawPodFinished, "pod-finished(delivered-as-delete)")
 		c.ClassIf(sawPending, "pending-pod-persisted")
 		c.ClassIf(sawTwoInQuota, "two-bound-pods-in-one-quota")
 		c.ClassIf(sawChild, "bound-pod-in-child-quota")
